@@ -28,3 +28,14 @@ Theorem C07_limits_unchanged_when_legal : forall c,
   512 <= sc_max_bs c <= 65464 -> normalise c = c.
 Proof. exact normalise_in_range_unchanged. Qed.
 Print Assumptions C07_limits_unchanged_when_legal.
+
+(* ---- the packet builders (Tftp/PacketBuild.v) ---- *)
+From VF Require Import Tftp.PacketBuild.
+Theorem C01_data_packet_roundtrip : forall blk payload, (blk < 65536)%N ->
+  dec_data (enc_data blk payload) = Some (blk, payload).
+Proof. exact data_roundtrip. Qed.
+Print Assumptions C01_data_packet_roundtrip.
+Theorem C01_data_packet_injective : forall b1 p1 b2 p2, (b1 < 65536)%N -> (b2 < 65536)%N ->
+  enc_data b1 p1 = enc_data b2 p2 -> b1 = b2 /\ p1 = p2.
+Proof. exact data_injective. Qed.
+Print Assumptions C01_data_packet_injective.
